@@ -892,6 +892,36 @@ def _script(h5, path):
     names2 = []
     top.visititems(cb)
     obs.append(("visit+del", names2, "inner" in top["z"]["sub"]))
+    # delete-by-marker while visiting, with hard links from several groups
+    # (the traversal nixio's delete_all relies on)
+    lab = mk(f, "lab")
+    store = mk(lab, "store")
+    for n in ("x", "y", "w"):
+        mk(store, n).attrs["eid"] = n
+    mk(store["w"], "inner").attrs["eid"] = "wi"
+    l1 = mk(lab, "alist")
+    l2 = mk(lab, "zlist")
+    deep = mk(mk(lab, "mid"), "deep")
+    l1["x"] = store["x"]
+    l1["w"] = store["w"]
+    l2["x"] = store["x"]
+    l2["y"] = store["y"]
+    deep["x"] = store["x"]
+    deep["wi"] = store["w"]["inner"]
+    for victims in (("x",), ("w", "wi")):
+        visited = []
+
+        def dele(n, o, victims=victims):
+            if not isinstance(o, h5.Group):
+                return
+            visited.append(n)
+            for child_name in list(o):
+                if o[child_name].attrs.get("eid") in victims:
+                    del o[child_name]
+        lab.visititems(dele)
+        left = []
+        lab.visititems(lambda n, o: left.append(n))
+        obs.append(("delete-all", victims, visited, left))
     del top["m"]
     mk(top, "c")
     obs.append(("after-del-iter", list(top)))
